@@ -139,7 +139,7 @@ def build_chain(cfg):
         txids = [tm.txid(tx) for tx in txs]  # display order
         root = rmerkle.merkle_root([h[::-1] for h in txids])[::-1]
         t += r.randrange(1, 1200)
-        h80 = rp.grind(r.choice([1, 2, 0x20000000]), prev, root, t, bits, start_nonce=r.randrange(0, 2**31))
+        h80 = rp.grind(r.choice([1, 2, 0x20000000, 0x20000000, 0x7FFFFFFF, 0x80000000, 0xFFFFFFFF, r.getrandbits(32)]), prev, root, t, bits, start_nonce=r.randrange(0, 2**31))
         bh = rp.header_hash(h80)
         blocks.append({"header": h80, "hash": bh, "txs": txs, "txids": txids})
         prev = bh
@@ -855,7 +855,18 @@ def check_headers_msg(sess, hm, payload):
     if len(hm.headers) != n:
         fail("C19", "P3", "headers_count", f"parsed {len(hm.headers)} headers, payload has {n}")
     for k, (b, h) in enumerate(zip(hm.headers, hs)):
-        if lib_header80(b) != h or b.serialize() != h:
+        d = rp.dec_header(h)
+        if (b.version, b.prev_block, b.merkle_root, b.timestamp, b.bits, b.nonce) != (d["version"], d["prev"], d["root"], d["time"], d["bits"], d["nonce"]):
+            fail("C19", "P3", "header_fields", f"header {k} decodes to other field values than the protocol layout gives (version {b.version} vs {d['version']}, time {b.timestamp} vs {d['time']})")
+            continue
+        try:
+            ser = b.serialize()
+        except SimDeadlock:
+            raise
+        except Exception as e:
+            fail("C19", "P3", "header_fields", f"header {k} cannot be re-serialised: {type(e).__name__}: {e}")
+            continue
+        if ser != h:
             fail("C19", "P3", "header_fields", f"header {k} does not re-encode to the received 80 bytes")
         if b.hash() != rp.header_hash(h):
             fail("C17", "M3", "header_hash", f"header {k} hash differs from double-SHA256")
